@@ -153,7 +153,7 @@ class C12:
             if rng.random() < 0.5:
                 # a second, looser or tighter, constraint: every one of
                 # them has to be met
-                f2 = rng.choice([0.5, 0.05, 1.0, 0.2])
+                f2 = rng.choice([0.5, 0.05, 1.0, 0.0, 1.0, 0.0])
                 c2 = b.emit('limit_overlaps', {'fraction': f2}, store='con')
                 cons = [cons[0], c2] if rng.random() < 0.5 else [c2, cons[0]]
                 frac = min(frac, f2)
